@@ -77,7 +77,7 @@ def main(ctx):
     pb = ctx.build("smatch")
     cases = os.path.join(ctx.scratch, "cases.ndjson")
     with open(cases, "wb") as f:
-        ctx.run([pb, "gen", "-n", "4000" if ctx.quick else "60000"], stdout=f)
+        ctx.run([pb, "gen", "-n", "4000" if ctx.quick else "200000"], stdout=f)
     ncases = 0
     classes = set()
     with open(cases) as f:
